@@ -176,6 +176,7 @@ def check(ix, rep):
         s[ncname], _p = O.summarize_online_discrete(opc, ix)
         opcls[ncname] = opc
     sums['discrete-online'] = s
+    _nex = __import__('sa.rules.truthy', fromlist=['x']).check_exact_comparisons(ix, rep)
     # the sign of the result is the sign of what was fed: a sample of exactly 0 is a sample (data entry of the online monitor)
     from sa.rules import truthy as _truthy
     _de = ix.resolve_method(on.cls, 'set_variable_to_ast_from_dataset')
